@@ -570,7 +570,7 @@ async def realise(r, sc):
     return cur
 
 
-async def run_scenario(ck: Check, r, sc, want_cases=None):
+async def run_scenario(ck: Check, r, sc, want_cases=None, rerun=True):
     """-> list of per-case records {label, case, must_pass, got, out, eff}; raising runner is a violation"""
     from koreo import result
 
@@ -588,7 +588,7 @@ async def run_scenario(ck: Check, r, sc, want_cases=None):
     if len(triples) > 20:      # the CRD allows at most 20 test cases
         records = []
         for i in range(0, len(triples), 20):
-            part = await run_scenario(ck, r, sc, want_cases=triples[i:i + 20])
+            part = await run_scenario(ck, r, sc, want_cases=triples[i:i + 20], rerun=rerun)
             if part and part[0]["case"] is None:
                 return part
             records.extend(part)
@@ -617,9 +617,22 @@ async def run_scenario(ck: Check, r, sc, want_cases=None):
         return [{"label": "aborted", "case": None, "must_pass": None,
                  "got": f"ran {len(res.test_results)} of {len(cases)} variant cases (fatal={res.fatal_error})",
                  "cases": triples}]
-    for (label, frag, must), tr, ob in zip(triples, res.test_results, log):
+    # the same PREPARED FunctionTest once more: judging must not have changed the assertions
+    try:
+        if rerun or any("directed" in t[0] for t in triples):
+            res2 = await g.run_ft_async(ft)
+            again = [bool(tr.test_pass) for tr in res2.test_results]
+        else:
+            again = [bool(tr.test_pass) for tr in res.test_results]
+    except g.FunctionRaised:
+        raise
+    except Exception as e:
+        again = [f"raised:{type(e).__name__}"] * len(cases)
+    if len(again) != len(cases):
+        again = (again + ["not-run"] * len(cases))[:len(cases)]
+    for (label, frag, must), tr, ob, g2 in zip(triples, res.test_results, log, again):
         records.append({"label": label, "case": frag, "must_pass": must, "got": bool(tr.test_pass),
-                        "out": ob["out"], "eff": ob["eff"]})
+                        "got_again": g2, "out": ob["out"], "eff": ob["eff"]})
     return records
 
 
@@ -640,10 +653,11 @@ def run_e2e(ck: Check, drv: LeanDriver, r, n: int):
 
 def _run_e2e_chunk(ck: Check, drv: LeanDriver, r, n: int):
     pending = []   # (scenario, record) for the model
-    for _ in range(n):
+    for i in range(n):
         sc = gen_scenario(r)
         try:
-            records = ku.run(run_scenario(ck, r, sc))
+            # every second scenario (and every one with a directive-carrying expectation) is run twice
+            records = ku.run(run_scenario(ck, r, sc, rerun=(i % 2 == 0)))
         except g.FunctionRaised:
             ck.count("e2e:skipped:function-under-test-raised")
             continue
@@ -688,6 +702,11 @@ def _run_e2e_chunk(ck: Check, drv: LeanDriver, r, n: int):
                 what = (f"{label}: the assertion describes what the Function did but the case FAILED"
                         if rec["must_pass"] else f"{label}: a deviating assertion PASSED")
                 ck.violate(scenario_case(sc, rec["case"], rec["must_pass"]), what)
+            elif rec.get("got_again", rec["got"]) != rec["got"]:
+                ck.count("e2e:rerun-differs")
+                ck.violate(scenario_case(sc, rec["case"], rec["must_pass"]),
+                           f"{label}: the same prepared FunctionTest judged this case {rec['got']} on its first run "
+                           f"and {rec['got_again']} on its second")
             pending.append((sc, rec))
     if pending:
         reqs = [{"op": "verdict", "as": g.assertion_wire(rec["case"]), "out": g.out_wire(rec["out"]),
@@ -704,7 +723,7 @@ def expectation_of_written(m):
     return drop_empty_annotations(strip_key_only(m))
 
 
-async def run_cases_observed(kind, fn_spec, base: dict, cases: list):
+async def run_cases_observed(kind, fn_spec, base: dict, cases: list, rerun=True):
     """one FunctionTest through the real prepare/run -> [(test_pass, out, eff)] for the executed cases,
     or a string if the runner raised / results and observations do not line up"""
     from koreo import result
@@ -721,6 +740,18 @@ async def run_cases_observed(kind, fn_spec, base: dict, cases: list):
             return f"raised:{type(e).__name__}: {e}"
     if len(log) != len(res.test_results):
         return f"skip: {len(res.test_results)} results for {len(log)} cases that reached the Function"
+    first = [bool(tr.test_pass) for tr in res.test_results]
+    if not rerun:
+        return [(bool(tr.test_pass), ob["out"], ob["eff"]) for tr, ob in zip(res.test_results, log)]
+    try:
+        res2 = await g.run_ft_async(ft)      # the same prepared FunctionTest again
+    except g.FunctionRaised:
+        raise
+    except Exception as e:
+        return f"raised on the second run:{type(e).__name__}: {e}"
+    second = [bool(tr.test_pass) for tr in res2.test_results]
+    if second != first:
+        return f"rerun: the same prepared FunctionTest gave {first} and then {second}"
     return [(bool(tr.test_pass), ob["out"], ob["eff"]) for tr, ob in zip(res.test_results, log)]
 
 
@@ -775,7 +806,7 @@ async def run_history(r, sc):
     # pass 1: what does each step do from the base state (all variant, placeholder assertion)
     probe_cases = [dict(copy.deepcopy(frag), variant=True, label=f"p{i}", expectOutcome={"ok": {}})
                    for i, (_, frag) in enumerate(seq)]
-    seen = await run_cases_observed(kind, fn_spec, base, probe_cases)
+    seen = await run_cases_observed(kind, fn_spec, base, probe_cases, rerun=False)
     if isinstance(seen, str) or len(seen) != len(seq):
         return probe_cases, (seen if isinstance(seen, str) else "skip: not every variant probe case ran")
     cases = []
@@ -828,7 +859,8 @@ def history_verdicts(sc, cases):
     except g.FunctionRaised:
         return None
     if isinstance(recs, str):
-        return None if recs.startswith("skip:") else f"the runner did not judge the cases: {recs}"
+        return None if recs.startswith("skip:") else recs if recs.startswith("rerun:") else \
+            f"the runner did not judge the cases: {recs}"
     for c, (got, out, eff) in zip(cases, recs):
         want = verdict_ref(c, out, eff)
         if got != want:
@@ -872,7 +904,8 @@ def run_histories(ck: Check, drv: LeanDriver, r, n: int):
             if recs.startswith("skip:"):
                 ck.count("history:skipped:setup-or-overlay-error")
             else:
-                ck.violate(history_case(sc, cases, len(cases) - 1), f"the runner did not judge the cases: {recs}")
+                ck.violate(history_case(sc, cases, len(cases) - 1),
+                           recs if recs.startswith("rerun:") else f"the runner did not judge the cases: {recs}")
             continue
         for i, (c, (got, out, eff)) in enumerate(zip(cases, recs)):
             ck.evaluated()
@@ -1064,6 +1097,8 @@ def check_case(ftrun, case: dict):
             want = verdict_ref(rec["case"], rec["out"], rec["eff"])
         if rec["got"] != want:
             return "truthful assertion failed" if want else "deviating assertion passed"
+        if rec.get("got_again", rec["got"]) != rec["got"]:
+            return f"first run {rec['got']}, second run of the same prepared FunctionTest {rec['got_again']}"
         return None
     return None
 
@@ -1108,16 +1143,25 @@ def run(tier: str) -> int:
     changed = g.constants_changed()
     if changed:
         ck.violate({"type": "constants-at-start"}, changed)
-    run_stability(ck, drv, rng("c19-stability"), 3 if tier == "quick" else 20)
-    replay_corpus(ck, ftrun)
+    import time
+    phases = ck.cov.setdefault("phase_seconds", {})
+
+    def timed(name, f, *a):
+        t0 = time.time()
+        f(*a)
+        phases[name] = round(phases.get(name, 0) + time.time() - t0, 1)
+
+    phases["prove"] = round(time.time() - ck.t0, 1)
+    timed("stability", run_stability, ck, drv, rng("c19-stability"), 3 if tier == "quick" else 20)
+    timed("corpus", replay_corpus, ck, ftrun)
     r = rng("c19")
     n_unit = 20000 if tier == "quick" else 300000
-    n_e2e = 260 if tier == "quick" else 6000
-    n_hist = 110 if tier == "quick" else 2500
-    run_unit(ck, drv, ftrun, r, n_unit)
-    run_unit_verdicts(ck, drv, ftrun, rng("c19-verdicts"), n_unit // 4)
-    run_e2e(ck, drv, rng("c19-e2e"), n_e2e)
-    run_histories(ck, drv, rng("c19-history"), n_hist)
+    n_e2e = 220 if tier == "quick" else 5000
+    n_hist = 90 if tier == "quick" else 2000
+    timed("unit", run_unit, ck, drv, ftrun, r, n_unit)
+    timed("unit-verdicts", run_unit_verdicts, ck, drv, ftrun, rng("c19-verdicts"), n_unit // 4)
+    timed("e2e", run_e2e, ck, drv, rng("c19-e2e"), n_e2e)
+    timed("histories", run_histories, ck, drv, rng("c19-history"), n_hist)
     if tier == "thorough":
         ck.leanchecker()
 
